@@ -357,7 +357,7 @@ async def run_in_subprocess(
     )
     if capture_output:
         stdout, _ = await asyncio.wait_for(proc.communicate(), timeout=timeout)
-        return stdout.decode().strip(), proc.returncode
+        return stdout.decode(errors="replace").strip(), proc.returncode
     else:
         await asyncio.wait_for(proc.wait(), timeout=timeout)
         return None
